@@ -60,6 +60,7 @@ type link struct {
 }
 
 type run struct {
+	force                  *[2]int
 	pairAcc                map[uintptr]*pairAccess
 	pairRace, pairRaceWhat string
 	pairAccesses           int64
@@ -280,6 +281,13 @@ func (r *run) exec() {
 			r.gy = 30 + t.Choose(60, "cfg-corridor-len")
 		}
 	}
+	hub := big && t.OneIn(30, "cfg-hub")
+	if hub {
+		// a junction where hundreds of links meet (counts around 256 and 512)
+		r.g = 24 + t.Choose(6, "cfg-hub-g")
+		r.gy = 22
+		r.res.Probe("hub-with->=255-links")
+	}
 	huge := t.OneIn(4000, "cfg-huge")
 	if huge {
 		// a network of ~2000 nodes: the node index (fan-out 25..50) gets three
@@ -304,10 +312,27 @@ func (r *run) exec() {
 		r.fail("panic", "NewNetwork", "NewNetwork panicked: %v %s", v, core.TrimStack(st, 3))
 		return
 	}
+	if hub && !huge {
+		n := r.g * r.gy
+		h := t.Choose(n, "hub-node")
+		k := []int{255, 256, 257, 258, 300, 511, 512, 513, 514}[t.Choose(9, "hub-degree")]
+		for i, c := 0, 0; i < n && c < k && r.res.Viol == nil; i++ {
+			if i == h {
+				continue
+			}
+			r.force = &[2]int{h, i}
+			r.addLink(speedMode)
+			c++
+		}
+	}
 	ops := 0
 	maxLinks, maxOps := 40, 90
 	if big {
 		maxLinks, maxOps = 260, 400
+	}
+	if hub {
+		// (the model's Dijkstra costs nodes x links per query)
+		maxLinks, maxOps = len(r.links)+60, 90
 	}
 	if huge {
 		maxLinks, maxOps = 6000, 6000
@@ -353,6 +378,17 @@ func (r *run) addLink(speedMode int) {
 	n := r.g * r.gy
 	var a, b int
 	found := false
+	if r.force != nil {
+		a, b, found = r.force[0], r.force[1], true
+		r.force = nil
+		k := [2]int{a, b}
+		if a > b {
+			k = [2]int{b, a}
+		}
+		if _, dup := r.pairs[k]; dup || a == b {
+			return
+		}
+	}
 	for try := 0; try < 6 && !found; try++ {
 		a = t.Choose(n, "link-a")
 		switch t.Choose(3, "link-b-kind") {
@@ -475,6 +511,11 @@ func (r *run) cost(l link) float64 {
 func (r *run) dijkstra(s int, w func(link) float64) map[int]float64 {
 	dist := map[int]float64{s: 0}
 	done := map[int]bool{}
+	adj := map[int][]int{}
+	for i, l := range r.links {
+		adj[l.a] = append(adj[l.a], i)
+		adj[l.b] = append(adj[l.b], i)
+	}
 	for {
 		u, best := -1, math.Inf(1)
 		for n, d := range dist {
@@ -486,14 +527,11 @@ func (r *run) dijkstra(s int, w func(link) float64) map[int]float64 {
 			break
 		}
 		done[u] = true
-		for _, l := range r.links {
-			var v int
+		for _, li := range adj[u] {
+			l := r.links[li]
+			v := l.a
 			if l.a == u {
 				v = l.b
-			} else if l.b == u {
-				v = l.a
-			} else {
-				continue
 			}
 			nd := best + w(l)
 			if old, ok := dist[v]; !ok || nd < old {
